@@ -48,6 +48,7 @@ type PropCfg struct {
 	Outside     []string   `json:"outside"`
 	ExtraNoop   []string   `json:"extra_noop"`
 	Redirect    map[string]string `json:"redirect"` // callee (fn.String()) -> harness function serving the call
+	Generator   string            `json:"generator"` // "c18": a harness file generated from the current tree's types
 	ClassActs   []string   `json:"class_actions"` // action kinds that distinguish finding classes (default: all)
 	SolverMode  string     `json:"solver_mode"` // "fresh": non-incremental queries (arithmetic kernels)
 }
@@ -222,6 +223,15 @@ func checkMain(args []string) int {
 		if err != nil {
 			l.err = err
 			return l, epc, ehdir
+		}
+		if epc.Generator == "c18" {
+			src, n, gerr := genC18(repo, 20000)
+			if gerr != nil {
+				l.err = gerr
+				return l, epc, ehdir
+			}
+			fmt.Fprintf(os.Stderr, "[%s] generated %d obligations from the types of the current tree\n", id, n)
+			overlay[filepath.Join(repo, epc.Pkg, "zz_verif_c18gen.go")] = src
 		}
 		l.prog, l.pkg, l.err = load(repo, epc.Pkg, overlay)
 		if l.err == nil {
@@ -516,6 +526,15 @@ func nativeReplay(verif, repo string, pc PropCfg, hdir, entry, replayPath string
 	pkgName, err := packageNameOf(paths)
 	if err != nil {
 		return false, err.Error()
+	}
+	if pc.Generator == "c18" {
+		src, _, gerr := genC18(repo, 20000)
+		if gerr != nil {
+			return false, gerr.Error()
+		}
+		gp := filepath.Join(tmp, "c18gen_test.go")
+		os.WriteFile(gp, src, 0o644)
+		repl[filepath.Join(pkgDir, "zz_verif_c18gen_test.go")] = gp
 	}
 	rt, err := os.ReadFile(filepath.Join(filepath.Dir(hdir), "rt", "rt_native.go.txt"))
 	if err != nil {
